@@ -11,16 +11,18 @@ import (
 )
 
 type ObReport struct {
-	Name   string  `json:"name"`
-	Count  int     `json:"instances"`
-	Status string  `json:"status"`
-	Solver string  `json:"solver,omitempty"`
-	Secs   float64 `json:"secs"`
-	Pos    string  `json:"pos,omitempty"`
-	Path   string  `json:"path,omitempty"`
-	Model  string  `json:"model,omitempty"`
-	Goal   string  `json:"goal,omitempty"`
-	ob     *Obligation
+	Name    string  `json:"name"`
+	Count   int     `json:"instances"`
+	Status  string  `json:"status"`
+	Solver  string  `json:"solver,omitempty"`
+	Secs    float64 `json:"secs"`
+	MaxSecs float64 `json:"max_secs"`
+	Second  bool    `json:"second_attempt,omitempty"`
+	Pos     string  `json:"pos,omitempty"`
+	Path    string  `json:"path,omitempty"`
+	Model   string  `json:"model,omitempty"`
+	Goal    string  `json:"goal,omitempty"`
+	ob      *Obligation
 }
 
 type Report struct {
@@ -79,6 +81,12 @@ func (e *Engine) buildReport(prop, tier string, fns []string, want func(*Obligat
 		}
 		a.Count++
 		a.Secs += ob.Secs
+		if ob.Secs > a.MaxSecs {
+			a.MaxSecs = ob.Secs
+		}
+		if strings.Contains(ob.Solver, "second attempt") {
+			a.Second = true
+		}
 		if rank[ob.Status] > rank[a.Status] || a.Count == 1 {
 			a.Status, a.Solver, a.Pos, a.Path, a.Model, a.Goal, a.ob = ob.Status, ob.Solver, ob.Pos, ob.Path, ob.Model, ob.Goal, ob
 		}
@@ -246,7 +254,14 @@ func (r *Report) finish(repo, verif, prop, tier string, writeEvidence bool) int 
 	known := loadKnown(verif)
 	expected := loadExpected(verif)
 	exp := map[string]bool{}
+	volatile := map[string]bool{}
 	for _, n := range expected[prop] {
+		if strings.HasPrefix(n, "~") {
+			// discharged on the pinned tree, but only after several attempts or close to the time budget: not pinned
+			// (if it fails without a counterexample it is reported as UNDECIDED, never as a violation)
+			volatile[n[1:]] = true
+			continue
+		}
 		exp[n] = true
 	}
 	seed := 0
@@ -331,6 +346,11 @@ func (r *Report) finish(repo, verif, prop, tier string, writeEvidence bool) int 
 	for _, f := range fns {
 		report(f+"/not-verified", "function could not be verified: "+strings.Join(r.Unsupported[f], "; "), "", nil)
 	}
+	for n := range volatile {
+		if !present[n] {
+			fmt.Printf("NOTE: property=%s the unpinned obligation %s was not generated\n", prop, n)
+		}
+	}
 	var missing []string
 	for n := range exp {
 		if !present[n] && !strings.Contains(n, "/cover:") {
@@ -355,6 +375,10 @@ func (r *Report) finish(repo, verif, prop, tier string, writeEvidence bool) int 
 		var names []string
 		for _, o := range r.Obs {
 			if o.Status == "discharged" || o.Status == "covered" {
+				if o.MaxSecs > 8 || o.Second || volatile[o.Name] { // (once unpinned, an obligation stays unpinned until the mark is removed by hand)
+					names = append(names, "~"+o.Name)
+					continue
+				}
 				names = append(names, o.Name)
 			}
 		}
